@@ -46,8 +46,8 @@ KINDS = ("supervised", "semi", "knn", "unsup", "unsup_prop")
 
 def arms(tier):
     if tier == "thorough":
-        return [("fly", 700_000), ("pre", 250_000), ("abort", 250_000)]
-    return [("fly", 20_000), ("pre", 7_000), ("abort", 7_000)]
+        return [("fly", 900_000), ("pre", 300_000), ("abort", 300_000)]
+    return [("fly", 36_000), ("pre", 12_000), ("abort", 12_000)]
 
 
 def hist_slice(tier):
@@ -243,6 +243,7 @@ def run_case(case):
         L = {}
         raises = {}
         positions = {}
+        observed = []
         states = set()
         norm = []
         facts = dict(kind=kind, metric_class=metric_class(case["metric"]), pre=case["pre"])
@@ -307,22 +308,9 @@ def run_case(case):
                         bump(out.probes, "query_equals_training_sample")
                     if 1 <= pos < n:
                         bump(out.probes, "position_ge1_is_valid_training_index")
-                    exp = ref(q)
-                    if exp is None:
-                        continue
-                    if got[pos] != exp:
-                        what = "label" if got[pos][0] != exp[0] else "cluster"
-                        raise Stop(
-                            violation(
-                                "prediction-not-single-valued",
-                                "pool sample %d %r predicted as %r at position %d of batch %s (op #%d), but as %r when predicted alone by a pristine copy of the fitted model (%s, metric %s, n_train %d, best_k %s)"
-                                % (q, rows[q], got[pos], pos, batch, k, exp, kind, case["metric"], n, best_k),
-                                what=what,
-                                position_nonzero=pos > 0,
-                                after_abort=out.faults.get("aborted_predict", 0) > 0,
-                                **facts,
-                            )
-                        )
+                    # verdicts are taken after the history (below): computing the reference in
+                    # between would itself be a call that could perturb hidden library state
+                    observed.append((k, pos, q, got[pos], tuple(batch), out.faults.get("aborted_predict", 0) > 0))
                     ps = positions.setdefault(q, set())
                     ps.add(pos)
                     states.add(h64((kind, n, best_k, len(batch), tuple(sorted(ps)))))
@@ -340,6 +328,25 @@ def run_case(case):
                 lib_call("save", m.save, os.path.join(scratch, "m.pkl"))
                 log.add("save")
                 norm.append(("save",))
+        # ---- history check: every label ever returned for q equals the singleton reference
+        for k, pos, q, got_q, batch, after_abort in observed:
+            exp = ref(q)
+            if exp is None:
+                bump(out.probes, "query_raises_consistently")
+                continue
+            if got_q != exp:
+                what = "label" if got_q[0] != exp[0] else "cluster"
+                raise Stop(
+                    violation(
+                        "prediction-not-single-valued",
+                        "pool sample %d %r predicted as %r at position %d of batch %s (op #%d), but as %r when predicted alone by a pristine copy of the fitted model (%s, metric %s, n_train %d, best_k %s)"
+                        % (q, rows[q], got_q, pos, list(batch), k, exp, kind, case["metric"], n, best_k),
+                        what=what,
+                        position_nonzero=pos > 0,
+                        after_abort=after_abort,
+                        **facts,
+                    )
+                )
         out.digest = log.hexdigest()
         out.hist = h64((kind, case["metric"], n, case["pre"], tuple(norm)))
         out.nontrivial = any(len(p) >= 2 for p in positions.values())
